@@ -102,6 +102,9 @@ def run_case(case, stats):
     def fresh():
         return _outcome(root, io.BytesIO(A))
 
+    # a second, different input of the same type: its parse must not change either after failed parses
+    A2 = gen.gen_bytes(random.Random(case["multi_seed"] ^ 0x5A5A), max(8, len(A)))
+    V2 = _outcome(root, io.BytesIO(A2))
     if fresh() != ("val", V):
         raise Violation("stream_kind", "simstream_vs_bytesio", f"fault-free SimStream and BytesIO disagree on {A.hex()}")
 
@@ -194,6 +197,11 @@ def run_case(case, stats):
                 raise Violation("error_kind", "truncation_not_EOFError:" + out[1],
                                 f"cut at {plan[0]['k']} of {len(A)} raised {out[1]}({out[2]})", plan=plan)
         # ---- clause 4: no residue
+        if stats.c["evaluations"] % 7 == 0:
+            r2 = _outcome(root, io.BytesIO(A2))
+            if r2 != V2:
+                raise Violation("no_residue", "later_parse_of_other_input_changed",
+                                f"after faulted parse plan={plan} parsing another input {A2.hex()} gives {r2} instead of {V2}", plan=plan)
         r = fresh()
         if r != ("val", V):
             raise Violation("no_residue", "later_parse_changed",
